@@ -5,6 +5,7 @@ Property theorems only; helper lemmas are in Jap/Lemmas/Adapt*.lean.
 import Jap.Core.Adapt
 import Jap.Core.AdaptPins
 import Jap.Gen.AdaptTables
+import Jap.Lemmas.AdaptStr
 namespace Jap.Props.C02
 open Jap.Adapt
 
@@ -34,5 +35,242 @@ def sortProbe : List (Nat × Ty) :=
 theorem tie_sort_probe :
     (sortedMembers (.str "x") (·.2) sortProbe).map (·.1) = Jap.Gen.sortProbeStr ∧
     (sortedMembers (.int 1) (·.2) sortProbe).map (·.1) = Jap.Gen.sortProbeNonStr := by first | rfl | exact ⟨rfl, rfl⟩ | exact ⟨rfl, rfl, rfl⟩
+
+
+/-! ## the property
+
+`adapt O false orig t v` is what `adapt_typehints` does with one value (`orig` = the original argument string,
+`none` inside containers); `checkType O t v` is `ActionTypeHint._check_type`, the entry point of both channels:
+`adaptStr O t s = checkType O t (.str s)` for an argument string, `checkType O t v` for a value given to
+`parse_object`.  `O` is the loader (PyYAML etc.), universally quantified everywhere. -/
+
+/-- a small table-driven loader for the witnesses -/
+def O0 : Oracle where
+  yaml s := if s = "null" then some .null else if s = "1" then some (.int 1) else if s = "[1]" then some (.list [.int 1])
+            else some (.str s)
+  loadAny s := some (.str s)
+  bigFlt _ := "?"
+  intOf s := if s = "1" then some 1 else if s = "01" then some 1 else .none
+
+/-! ### soundness: accepted values conform
+
+Full statement (FALSE for the code and hence for the model):
+  `theorem C02_sound : adapt O false orig t v = .ok w → Conforms t w`
+It fails in exactly two ways, both known findings: `Literal` membership is tested with Python `==`
+(row 5e), and the keys of a `Dict[str, V]` are not looked at. -/
+
+/-- counterexample 1 (finding C02-literal-pyeq): `Literal[1, 2]` accepts `True` and returns it -/
+theorem C02_sound_fails_literal :
+    adapt O0 false .none (.literal [.int 1, .int 2]) (.bool true) = .ok (.bool true) ∧
+    conf (.literal [.int 1, .int 2]) (.bool true) = false := by
+  constructor <;> rfl
+
+/-- counterexample 2 (finding C02-dict-key-unchecked): `Dict[str, int]` accepts `{1: 2}` -/
+theorem C02_sound_fails_dict_key :
+    adapt O0 false .none (.dict .str .int) (.dict [(.int 1, .int 2)]) = .ok (.dict [(.int 1, .int 2)]) ∧
+    conf (.dict .str .int) (.dict [(.int 1, .int 2)]) = false := by
+  constructor <;> rfl
+
+/-- **soundness at full strength for the validator relaxed at exactly these two points**: for every type hint,
+    value, original string and loader, what the adapter returns conforms when Literal members are compared
+    with `==` and dictionary keys are ignored -/
+theorem C02_sound_relaxed (O : Oracle) (t : Ty) (orig : Option String) (v w : Val)
+    (h : adapt O false orig t v = .ok w) : confL true true t w = true :=
+  sound_gen O true true t orig v w (by simp) (by simp) h
+
+/-- only the Literal relaxation is needed when the value has string keys only (what JSON can express) -/
+theorem C02_sound_keys (O : Oracle) (t : Ty) (orig : Option String) (v w : Val) (hk : strKeys v = true)
+    (h : adapt O false orig t v = .ok w) : confL true false t w = true :=
+  sound_gen O true false t orig v w (by simp) (fun _ => hk) h
+
+/-- only the key relaxation is needed when every Literal has string members only -/
+theorem C02_sound_literals (O : Oracle) (t : Ty) (orig : Option String) (v w : Val) (hl : litStrOnly t = true)
+    (h : adapt O false orig t v = .ok w) : confL false true t w = true :=
+  sound_gen O false true t orig v w (fun _ => hl) (by simp) h
+
+/-- **C02_sound_partial**: strict conformance under the two forced hypotheses -/
+theorem C02_sound_partial (O : Oracle) (t : Ty) (orig : Option String) (v w : Val)
+    (hl : litStrOnly t = true) (hk : strKeys v = true)
+    (h : adapt O false orig t v = .ok w) : Conforms t w :=
+  sound_gen O false false t orig v w (fun _ => hl) (fun _ => hk) h
+
+/-- the hypotheses are satisfiable by a non-trivial case (a conversion at every level) -/
+example : litStrOnly (.dict .int (.union [.tuple [.float, .literal [.str "a"]], .none])) = true ∧
+    strKeys (.dict [(.str "1", .list [.str "1", .str "a"])]) = true ∧
+    adapt O0 false .none (.dict .int (.union [.tuple [.float, .literal [.str "a"]], .none]))
+      (.dict [(.str "1", .list [.str "1", .str "a"])]) = .ok (.dict [(.int 1, .tuple [.flt "1.0", .str "a"])]) := by
+  refine ⟨rfl, rfl, rfl⟩
+
+/-- soundness of the whole `_check_type` (both channels), relaxed and strict -/
+theorem C02_sound_checkType_relaxed (O : Oracle) (t : Ty) (v w : Val) (h : checkType O t v = .ok w) :
+    confL true true t w = true :=
+  checkType_sound O true true t v w (by simp) (by simp) h
+
+theorem C02_sound_checkType_partial (O : Oracle) (t : Ty) (v w : Val)
+    (hl : litStrOnly t = true) (hk : strKeys (parseValueOrConfig O v) = true)
+    (h : checkType O t v = .ok w) : Conforms t w :=
+  checkType_sound O false false t v w (fun _ => hl) (fun _ => hk) h
+
+/-! ### a value of the right shape is never rejected
+
+Full statement (FALSE): `Conforms t v → accepts O t v`.  It fails for a `Set` whose element type has an
+alternative that converts the element to something unhashable (finding C02-set-element-becomes-unhashable). -/
+
+/-- counterexample: `Set[Union[List[int], Tuple[int, ...]]]` rejects the conforming `{(1, 2)}` … -/
+theorem C02_shape_fails_set :
+    conf (.set (.union [.list .int, .tupleVar .int])) (.set [.tuple [.int 1, .int 2]]) = true ∧
+    adapt O0 false .none (.set (.union [.list .int, .tupleVar .int])) (.set [.tuple [.int 1, .int 2]]) = .error .type := by
+  constructor <;> rfl
+
+/-- … which the permuted Union accepts: inside a Set, acceptance depends on the member order -/
+theorem C02_shape_set_order_dependent :
+    adapt O0 false .none (.set (.union [.tupleVar .int, .list .int])) (.set [.tuple [.int 1, .int 2]])
+      = .ok (.set [.tuple [.int 1, .int 2]]) := by rfl
+
+/-- **C02_shape_partial**: when every Set in the hint has an element type whose adapted values are always
+    hashable (`setSafe`), a conforming value is accepted — whatever the loader and the original string -/
+theorem C02_shape_partial (O : Oracle) (t : Ty) (orig : Option String) (v : Val)
+    (hs : setSafe t = true) (hc : Conforms t v) : isOk (adapt O false orig t v) = true :=
+  shape_gen O t orig v hc hs
+
+example : setSafe (.set (.union [.tuple [.int, .enum 0 ["a"]], .literal [.int 1], .none])) = true := by rfl
+
+/-- the same through `_check_type` for a non-string value (`parse_object`) -/
+theorem C02_shape_checkType (O : Oracle) (t : Ty) (v : Val) (hv : isStr v = false)
+    (hs : setSafe t = true) (hc : Conforms t v) : isOk (checkType O t v) = true := by
+  rw [checkType_nonstr O t v hv]; exact shape_gen O t .none v hc hs
+
+/-! ### containers are accepted exactly when every element is (value channel and, identically, inside an
+    argument string: elements never see the original string) -/
+
+theorem C02_list_iff (O : Oracle) (orig : Option String) (t : Ty) (xs : List Val) :
+    isOk (adapt O false orig (.list t) (.list xs)) = true ↔ ∀ x ∈ xs, accepts O t x = true := by
+  rw [list_isOk O orig t (.list xs) xs rfl, List.all_eq_true]
+  simp [accepts, isOk_eq_not_isErr]
+
+theorem C02_tupleVar_iff (O : Oracle) (orig : Option String) (t : Ty) (xs : List Val) :
+    isOk (adapt O false orig (.tupleVar t) (.list xs)) = true ↔ ∀ x ∈ xs, accepts O t x = true := by
+  rw [tupleVar_isOk O orig t (.list xs) xs rfl, List.all_eq_true]
+  simp [accepts, isOk_eq_not_isErr]
+
+/-- fixed-arity tuples: the arity has to match, and then position by position -/
+theorem C02_tuple_iff (O : Oracle) (orig : Option String) (ts : List Ty) (xs : List Val) :
+    isOk (adapt O false orig (.tuple ts) (.list xs)) = true ↔
+      xs.length = ts.length ∧ ∀ tx ∈ ts.zip xs, accepts O tx.1 tx.2 = true := by
+  rw [tuple_isOk_iff O orig ts (.list xs) xs rfl]
+  simp [accepts, isOk_eq_not_isErr]
+
+theorem C02_dict_iff (O : Oracle) (orig : Option String) (t : Ty) (kvs : List (DKey × Val)) :
+    isOk (adapt O false orig (.dict .str t) (.dict kvs)) = true ↔ ∀ kv ∈ kvs, accepts O t kv.2 = true := by
+  rw [dictStr_isOk, List.all_eq_true]
+  simp [accepts, isOk_eq_not_isErr]
+
+/-- `Dict[int, V]`: the keys have to be castable, then value by value (on the dictionary after the cast) -/
+theorem C02_dict_int_iff (O : Oracle) (orig : Option String) (t : Ty) (kvs : List (DKey × Val)) :
+    isOk (adapt O false orig (.dict .int t) (.dict kvs)) = true ↔
+      ∃ kvs', castKeys O false kvs [] = .ok kvs' ∧ ∀ kv ∈ kvs', accepts O t kv.2 = true := by
+  rw [dictInt_isOk]
+  cases castKeys O false kvs [] with
+  | error e => simp
+  | ok kvs' => simp [accepts, isOk_eq_not_isErr]
+
+/-- Sets: element-wise when the element type is hashable (see `C02_shape_fails_set` otherwise) -/
+theorem C02_set_iff (O : Oracle) (orig : Option String) (t : Ty) (xs : List Val) (ht : hashTy t = true) :
+    isOk (adapt O false orig (.set t) (.list xs)) = true ↔ ∀ x ∈ xs, accepts O t x = true := by
+  rw [set_isOk_hashTy O orig t (.list xs) xs rfl ht, List.all_eq_true]
+  simp [accepts, isOk_eq_not_isErr]
+
+/-! ### a Union is accepted exactly when a member accepts, whatever the order -/
+
+/-- value channel (no original string: elements of containers, values given to `parse_object`) -/
+theorem C02_union_iff (O : Oracle) (ts : List Ty) (v : Val) :
+    accepts O (.union ts) v = true ↔ ∃ t ∈ ts, accepts O t v = true := by
+  have := union_isOk O false .none ts v
+  simp only [rescued, Option.isSome_none, Bool.false_and, Bool.or_false] at this
+  simp only [accepts, ← isOk_eq_not_isErr, this, List.any_eq_true]
+
+theorem C02_union_perm (O : Oracle) (v : Val) {ts ts' : List Ty} (h : ts.Perm ts') :
+    accepts O (.union ts) v = accepts O (.union ts') v := by
+  rw [Bool.eq_iff_iff, C02_union_iff, C02_union_iff]
+  constructor
+  · rintro ⟨t, hm, ha⟩; exact ⟨t, h.mem_iff.mp hm, ha⟩
+  · rintro ⟨t, hm, ha⟩; exact ⟨t, h.mem_iff.mpr hm, ha⟩
+
+/-- with an original string: a member accepts, or the value is not a string and `str` is a member (the rescue) -/
+theorem C02_union_iff_orig (O : Oracle) (o : String) (ts : List Ty) (v : Val) :
+    isOk (adapt O false (some o) (.union ts) v) = true ↔
+      (∃ t ∈ ts, isOk (adapt O false (some o) t v) = true) ∨ (isStr v = false ∧ Ty.str ∈ ts) := by
+  rw [union_isOk]
+  simp only [rescued, Option.isSome_some, Bool.true_and, Bool.or_eq_true, List.any_eq_true, Bool.and_eq_true,
+    Bool.not_eq_true']
+  constructor
+  · rintro (h | ⟨h1, t, hm, h2⟩)
+    · exact Or.inl h
+    · have := isStrTy_eq h2; subst this; exact Or.inr ⟨h1, hm⟩
+  · rintro (h | ⟨h1, hm⟩)
+    · exact Or.inl h
+    · exact Or.inr ⟨h1, .str, hm, rfl⟩
+
+/-- **string channel: permutation invariance holds without hypothesis** (after the repairs of rows 5/5b/5c) -/
+theorem C02_union_perm_str (O : Oracle) (s : String) {ts ts' : List Ty} (h : ts.Perm ts') :
+    acceptsStr O (.union ts) s = acceptsStr O (.union ts') s := by
+  simp only [acceptsStr, adaptStr, ← isOk_eq_not_isErr, checkType_union_isOk]
+  rw [h.any_eq, h.any_eq, h.any_eq]
+
+/- string channel, Union versus members.  Full statement (FALSE):
+     `acceptsStr O (.union ts) s ↔ ∃ t ∈ ts, acceptsStr O t s`
+   A member that fails on the loaded value with a non-`ValueError` exception (Enum lookup of an unhashable
+   value) is not retried with the original text when it stands alone, while the Union catches the exception
+   and is retried as a whole (finding C02-enum-unhashable-no-retry). -/
+
+def O1 : Oracle where
+  yaml s := if s = "[1]" then some (.list [.int 1]) else some (.str s)
+  loadAny s := some (.str s)
+  bigFlt _ := "?"
+  intOf _ := .none
+
+/-- counterexample: an Enum with a member named `[1]`; `Union[E, int]` accepts the text `[1]`, `E` alone and
+    `int` alone reject it -/
+theorem C02_union_iff_str_fails :
+    acceptsStr O1 (.union [.enum 3 ["[1]"], .int]) "[1]" = true ∧
+    acceptsStr O1 (.enum 3 ["[1]"]) "[1]" = false ∧ acceptsStr O1 .int "[1]" = false := by
+  refine ⟨rfl, rfl, rfl⟩
+
+/-- **C02_union_iff_str_partial** -/
+theorem C02_union_iff_str_partial (O : Oracle) (ts : List Ty) (s : String)
+    (hte : ts.all (fun t => !isTypeErr (adapt O false (some s) t (parseValueOrConfig O (.str s)))) = true) :
+    acceptsStr O (.union ts) s = true ↔ ∃ t ∈ ts, acceptsStr O t s = true := by
+  simp only [acceptsStr, adaptStr, ← isOk_eq_not_isErr]
+  rw [union_str_iff O ts s hte, List.any_eq_true]
+
+example : ([Ty.str, .int, .list .float, .none].all
+    (fun t => !isTypeErr (adapt O0 false (some "[1]") t (parseValueOrConfig O0 (.str "[1]"))))) = true := by rfl
+
+/-- one direction needs no hypothesis: what a member accepts, the Union accepts -/
+theorem C02_union_str_of_member (O : Oracle) (ts : List Ty) (s : String) (t : Ty) (hm : t ∈ ts)
+    (h : acceptsStr O t s = true) : acceptsStr O (.union ts) s = true := by
+  simp only [acceptsStr, adaptStr, ← isOk_eq_not_isErr] at h ⊢
+  rw [checkType_union_isOk]
+  rw [checkType_str_isOk] at h
+  simp only [Bool.or_eq_true, Bool.and_eq_true, List.any_eq_true] at h ⊢
+  rcases h with h | ⟨_, h⟩
+  · exact Or.inl (Or.inl (Or.inl ⟨t, hm, h⟩))
+  · exact Or.inl (Or.inr ⟨t, hm, h⟩)
+
+/-! ### strings that only look like another type -/
+
+/-- **a `str` argument is returned verbatim**, whatever the loader makes of its text -/
+theorem C02_str_verbatim (O : Oracle) (s : String) : adaptStr O .str s = .ok (.str s) :=
+  checkType_str O s
+
+/-- the `_is_valid_string` fallback never decides anything (it is dead code on this grammar) -/
+theorem C02_fallback_dead (O : Oracle) (t : Ty) (v : Val) (e : Err)
+    (h : adapt O false (origOf v) t (parseValueOrConfig O v) = .error e) :
+    isValidString t (parseValueOrConfig O v) = false := by
+  cases hv : isValidString t (parseValueOrConfig O v) with
+  | false => rfl
+  | true =>
+    have := isValidString_isOk O (origOf v) t _ hv
+    rw [h] at this; simp at this
 
 end Jap.Props.C02
